@@ -28,8 +28,8 @@ def _run(args):
 def site_kind(case: dict) -> str:
     kinds = []
     for m in case["markers"]:
-        if len(m) >= 2 and m[-1] == 0 and m[-2] in (2, 3, 4):
-            kinds.append({2: "else-line", 3: "except-line", 4: "finally-line"}[m[-2]])
+        if len(m) >= 2 and m[-1] == 0 and m[-2] in (2, 3, 4, 5):
+            kinds.append({2: "else-line", 3: "except-line", 4: "finally-line", 5: "try-else-line"}[m[-2]])
         else:
             # find the statement kind at this path
             blk, s = case["prog"], None
@@ -43,7 +43,7 @@ def site_kind(case: dict) -> str:
                     break
                 s = blk[idx - 1]
                 if path:
-                    blk = {1: s.get("a"), 2: s.get("b", s.get("e")), 3: s.get("h"), 4: s.get("f")}[path[0]] or []
+                    blk = {1: s.get("a"), 2: s.get("b", s.get("e")), 3: s.get("h"), 4: s.get("f"), 5: s.get("o")}[path[0]] or []
             kinds.append((s["t"] if (s and ok) else "end") + "-line")
     return "+".join(sorted(kinds)) or "no-marker"
 
